@@ -136,4 +136,74 @@ theorem skip_completion (E : WEnv σ) (s : WSD σ) (h : InvWeak E s) :
     · intro hm
       exact min_no_out E _ hinv p hm
 
+/-! ### giving a stub successors by any rule (source shortcuts, skipping, sub-diagram attachment) -/
+
+/-- a stub `p` receives the successors `cs` and is marked expanded -/
+def attach (s : WSD σ) (p : σ) (cs : List σ) : WSD σ :=
+  { nodes := s.nodes ++ cs.filter (fun c => c ∉ s.nodes),
+    exp := fun q => if q = p then true else s.exp q,
+    edges := s.edges ++ cs.map (fun c => (p, c)) }
+
+/-- **C03/C14 core (`attach_weak`).** Let `p` be an unexpanded node and `cs` percolation-closed trap
+    spaces strictly inside `p` that together contain every minimal trap space of `p` (or `p` is itself
+    minimal and `cs` is empty).  Giving `p` the successors `cs` keeps the weak invariant - whatever
+    rule produced `cs`: the valuations of the source variables (`source_valuations_cover`), the
+    minimal trap spaces (skip nodes), or the nodes of an attached sub-diagram. -/
+theorem attach_weak (E : WEnv σ) (s : WSD σ) (h : InvWeak E s) (p : σ) (cs : List σ)
+    (hp : p ∈ s.nodes) (hstub : s.exp p = false)
+    (hgood : ∀ c ∈ cs, E.good c) (hlt : ∀ c ∈ cs, E.le c p = true ∧ c ≠ p)
+    (hcov : ∀ m, E.isMin m → E.le m p = true → m = p ∨ ∃ c ∈ cs, E.le m c = true)
+    (hnew : ∀ c ∈ cs, c ∉ s.nodes → s.exp c = false) :
+    InvWeak E (attach s p cs) := by
+  have hnodes : ∀ q, q ∈ (attach s p cs).nodes ↔ q ∈ s.nodes ∨ q ∈ cs := by
+    intro q
+    simp only [attach, List.mem_append, List.mem_filter, decide_eq_true_eq]
+    constructor
+    · rintro (h1 | ⟨h1, _⟩); exact Or.inl h1; exact Or.inr h1
+    · rintro (h1 | h1)
+      · exact Or.inl h1
+      · by_cases hq : q ∈ s.nodes
+        · exact Or.inl hq
+        · exact Or.inr ⟨h1, hq⟩
+  refine ⟨?_, ?_, ?_, ?_, ?_⟩
+  · intro q hq
+    rcases (hnodes q).1 hq with h1 | h1
+    · exact h.good q h1
+    · exact hgood q h1
+  · intro q hq
+    rcases (hnodes q).1 hq with h1 | h1
+    · exact h.below q h1
+    · exact E.le_trans (hlt q h1).1 (h.below p hp)
+  · intro q hq e he
+    have hqp : q ≠ p := by
+      intro e1; subst e1; simp [attach] at hq
+    have hq' : s.exp q = false := by simpa [attach, hqp] using hq
+    rcases List.mem_append.1 he with he | he
+    · exact h.stub q hq' e he
+    · obtain ⟨c, _, rfl⟩ := List.mem_map.1 he
+      exact fun e1 => hqp e1.symm
+  · intro e he
+    rcases List.mem_append.1 he with he | he
+    · obtain ⟨a, b, c, d⟩ := h.edge e he
+      exact ⟨(hnodes _).2 (Or.inl a), (hnodes _).2 (Or.inl b), c, d⟩
+    · obtain ⟨c, hc, rfl⟩ := List.mem_map.1 he
+      exact ⟨(hnodes _).2 (Or.inl hp), (hnodes _).2 (Or.inr hc), (hlt c hc).1, (hlt c hc).2⟩
+  · intro q hq hexp m hm hle
+    by_cases hqp : q = p
+    · subst hqp
+      rcases hcov m hm hle with h1 | ⟨c, hc, hmc⟩
+      · exact Or.inl h1
+      · exact Or.inr ⟨c, List.mem_append_right _ (List.mem_map.2 ⟨c, hc, rfl⟩), hmc⟩
+    · have hexp' : s.exp q = true := by simpa [attach, hqp] using hexp
+      have hqs : q ∈ s.nodes := by
+        rcases (hnodes q).1 hq with h1 | h1
+        · exact h1
+        · -- a child that is a new node is created unexpanded
+          by_cases hq2 : q ∈ s.nodes
+          · exact hq2
+          · rw [hnew q h1 hq2] at hexp'; cases hexp'
+      rcases h.cov q hqs hexp' m hm hle with h1 | ⟨c, hc, hmc⟩
+      · exact Or.inl h1
+      · exact Or.inr ⟨c, List.mem_append_left _ hc, hmc⟩
+
 end Balm.Skip
